@@ -53,6 +53,11 @@ def workload(tier, seed, scale=1.0):
     for x in bnd:
         for y in (0, 1, x, x - 1, 2, 1 << 63, (1 << 63) - 1, 6):
             pairs.append(('prim_boundary', x, y))
+    from ..core import special_values
+    pool = special_values()
+    for x in pool:
+        for y in (pool[::5] if quick else pool[::2]):
+            pairs.append(('pool', x, y))
     pairs += [('pow10', 10 ** 40, 1000), ('pow2big', 3 << 200, 12), ('zero_a', 0, 3), ('zero_a_big', 0, rand_digits(rnd, 4, 0)), ('zero_b', rand_digits(rnd, 4, 0), 0)]
     for fam, a, b in pairs:
         if scale < 1.0 and rnd.random() > scale:
